@@ -388,7 +388,7 @@ func RunC04(ctx *core.Ctx, rep *core.Report) {
 		"each in every spelling the API offers (AfterNanos/BeforeNanos in both orders, deprecated After/Before in both orders where representable), x topic sets (nil, empty, unknown, single, shared, without messages, all) x {scan, index file order, log-time, reverse}. " +
 		"Oracle: reference filter over the call log; time-ordered results additionally satisfy C03's order predicates. distinct_nontrivial counts distinct (shape, configuration) pairs with at least one message."
 	rep.Assumptions = []string{"the call log is the full unrestricted content", "deprecated int64 options are not exercised with end = 0 (documented as 'unset')"}
-	n := ctx.Pick(150, 5000)
+	n := ctx.Pick(150, 3000)
 	nw := ctx.Pick(5, 9)
 	core.Parallel(ctx, rep, n, func(i int) {
 		rep.Eval(1)
